@@ -7,13 +7,26 @@
 //! * `gen`       — proptest plumbing: seeded batches of value trees and bounded manual shrinking
 //! * `farm`      — parallel "write project -> incan build -> run binary" workers
 //! * `util`      — hashing, panic capture, small helpers
+//! * `cargoproj` — reader for generated Cargo.toml + scanner for external crate roots in generated Rust (C12/C15)
 
 pub mod args;
+pub mod cargoproj;
+pub mod astcanon;
 pub mod evidence;
 pub mod farm;
+pub mod fmtoracle;
 pub mod gen;
+pub mod gsyn;
+pub mod gprog;
+pub mod gprog_gen;
+pub mod gprog_run;
+pub mod gprog_check;
 pub mod known;
+pub mod front;
+pub mod fuzzrun;
+pub mod layout;
 pub mod outcome;
+pub mod pymodel;
 pub mod util;
 
 pub use args::{Args, Tier};
